@@ -38,6 +38,7 @@ logging.disable(logging.CRITICAL)
 IMPORTS = ("From Coq Require Import QArith.\nFrom V Require Import Model.Dst Model.DstRun Model.Rows Model.RowsRun "
            "Model.HourlyFlow Model.CounterfactualFlows Model.CounterfactualRun.")
 ALTS = ["orig", "scaled", "negated", "shuffled", "nan30", "zeros30", "times0", "allnan", "dropped"]
+SUBHOURLY_ALTS = ALTS + ["altnan"]
 HZONES = ["US/Pacific", "US/Eastern", "Europe/Berlin", "Australia/Sydney", "UTC", "Asia/Kolkata"]
 # (zone, month-day of a clock change in 2022) used to aim reporting windows at short / long days
 DST_DATES = {"US/Pacific": ["03-13", "11-06"], "US/Eastern": ["03-13", "11-06"], "Europe/Berlin": ["03-27", "10-30"],
@@ -66,6 +67,12 @@ def alter(fr, name, seed):
         a.loc[(r.random(len(a)) < 0.3) & a["observed"].notna().to_numpy(), "observed"] = 0.0
     elif name == "times0":           # the whole column rescaled by 0
         a["observed"] = a["observed"] * 0.0
+    elif name == "altnan":           # a block of days in which every reading off the full hour is blank
+        off = a.index.minute != 0
+        third = len(a) // 3
+        blk = np.zeros(len(a), dtype=bool)
+        blk[third:2 * third] = True
+        a.loc[off & blk, "observed"] = np.nan
     elif name == "allnan":
         a["observed"] = np.nan
     elif name == "dropped":
@@ -76,6 +83,20 @@ def alter(fr, name, seed):
 
 
 WEATHER_COLS = ["temperature", "ghi"]
+
+
+def subhourly(rep, minutes, seed):
+    """the same period as a sub-hourly feed (30- or 15-minute rows): weather interpolated in time, usage split evenly"""
+    idx = pd.date_range(rep.index[0], rep.index[-1] + pd.Timedelta(minutes=60 - minutes), freq="%dmin" % minutes)
+    out = rep.reindex(idx)
+    for c in out.columns:
+        if c == "observed":
+            out[c] = (rep[c] / (60 // minutes)).reindex(idx).ffill()
+        else:
+            out[c] = out[c].interpolate(method="time").ffill()
+    r = np.random.default_rng(seed)
+    out["observed"] = np.round(out["observed"] * (1 + 0.1 * r.standard_normal(len(out))), 4)
+    return out
 
 
 def add_duplicates(rep, seed, n=12, drop_hours=0):
@@ -108,8 +129,10 @@ def bits(x):
     return np.asarray(x, dtype=np.float64).view(np.int64)
 
 
-def compare(a, b):
-    """a, b: observations {"ok": bool, "ts": [...], "pred": np.array} -> (same, symptom, detail)"""
+def compare(a, b, presence=False):
+    """a, b: observations {"ok": bool, "ts": [...], "pred": np.array} -> (same, symptom, detail).
+    presence=True (hourly families: a prediction does not need a usage reading): an instant that is in both outputs and
+    carries a prediction in one of them only is a lost / gained prediction"""
     if not a["ok"] and not b["ok"]:
         return True, None, None
     if a["ok"] != b["ok"]:
@@ -124,6 +147,9 @@ def compare(a, b):
         if i is None:
             continue
         x, y = na[i], nb[j]
+        if presence and ((x != x) != (y != y)):
+            return False, "prediction-lost", {"ts": int(t), "a": None if x != x else float(x), "b": None if y != y else float(y),
+                                               "predicted_a": int(np.isfinite(na).sum()), "predicted_b": int(np.isfinite(nb).sum())}
         if x != x or y != y:
             continue
         n_both += 1
@@ -144,7 +170,7 @@ def observe(call):
     return {"ok": True, "ts": sd.index_seconds(out.index), "pred": out["predicted"].to_numpy(dtype=float), "frame": out}
 
 
-def pairwise(run, family, obs, sig_extra, case, classify=None, guard_ok=True):
+def pairwise(run, family, obs, sig_extra, case, classify=None, guard_ok=True, presence=False):
     """the property oracle on every pair of variants; returns number of pairs compared"""
     names = list(obs)
     n = 0
@@ -152,7 +178,7 @@ def pairwise(run, family, obs, sig_extra, case, classify=None, guard_ok=True):
     for i in range(len(names)):
         for j in range(i + 1, len(names)):
             a, b = names[i], names[j]
-            same, symptom, detail = compare(obs[a], obs[b])
+            same, symptom, detail = compare(obs[a], obs[b], presence=presence)
             n += 1
             run.dist("pair_result/" + family, "identical" if same else symptom)
             if same:
@@ -168,7 +194,8 @@ def pairwise(run, family, obs, sig_extra, case, classify=None, guard_ok=True):
             run.violation(sig, "C05 %s: usage %s vs %s: %s (%s)" % (family, a, b, symptom, cause),
                           case=dict(case, pair=[a, b]), observation=detail,
                           expected="every timestamp predicted in both runs has the bit-identical prediction; "
-                                   "both runs predict or both raise", generator="c05")
+                                   "both runs predict or both raise" + ("; an instant of both outputs is predicted in both or in neither" if presence else ""),
+                          generator="c05")
     return n
 
 
@@ -669,7 +696,8 @@ def gen_hourly_case(rng, kit, k):
     elif k % 5 == 4:
         mode = "truncated"
     return {"stream": "hourly", "kit_seed": kit.seed, "solar": kit.solar, "tz": kit.tz, "start": start, "ndays": ndays,
-            "mode": mode, "tgap": k % 3 == 1, "dups": k % 4 in (0, 2), "electric": k % 3 != 2, "seed": rng.randrange(2**31)}
+            "mode": mode, "tgap": k % 3 == 1, "dups": k % 4 in (0, 2), "electric": k % 3 != 2,
+            "minutes": 30 if k % 4 == 3 else None, "seed": rng.randrange(2**31)}
 
 
 def labels_used(model, df_in):
@@ -704,10 +732,14 @@ def run_hourly_case(run, kit, case, pz, state_policy, terms, meta):
     if case.get("dups"):    # repeated time stamps whose records differ in which cells are NaN
         rep = add_duplicates(rep, case["seed"] + 2)
     electric = bool(case.get("electric", True))
+    alts = ALTS
+    if case.get("minutes"):     # a sub-hourly feed: the data class keeps the rows on the full hour
+        rep = subhourly(rep, case["minutes"], case["seed"] + 3)
+        alts = SUBHOURLY_ALTS
     variants = []   # (name, path, builder of the data object)
     raw = {}
-    for name in ALTS:
-        a = alter(rep, name, case["seed"] % 1000 + ALTS.index(name))
+    for name in alts:
+        a = alter(rep, name, case["seed"] % 1000 + alts.index(name))
         raw[name] = a
         variants.append((name, "class", (lambda a=a: fl.hourly_reporting(a, electric=electric))))
     # usage written into the data object: gaps survive (the data class would interpolate them)
@@ -797,7 +829,7 @@ def run_hourly_case(run, kit, case, pz, state_policy, terms, meta):
     # the statement's guard is about the FITTED model; a table truncated by an earlier predict is the code's doing
     guard_ok = fitted_covered and case["mode"] != "truncated"
     pairwise(run, "hourly", obs, {"stream": "fitted", "model_use": case["mode"], "solar": case["solar"]},
-             dict(case, variants=names), classify=classify, guard_ok=guard_ok)
+             dict(case, variants=names), classify=classify, guard_ok=guard_ok, presence=True)
     if not same_wc:
         run.corr_failures.append({"stream": "hourly", "case": case, "impl": "data.df differs between variants in index or temperature"})
         return
@@ -1030,10 +1062,15 @@ def caltrack_stream(run, seed, nsets):
             rep = add_duplicates(rep, seed + k, n=0, drop_hours=2)
             irregular = "gap"
         case["irregular_index"] = irregular
+        alts = ALTS
+        if k % 4 in (0, 2) and k % 3 != 2:     # a sub-hourly feed (30- or 15-minute rows)
+            case["minutes"] = 30 if k % 4 == 0 else 15
+            rep = subhourly(rep, case["minutes"], seed + k)
+            alts = SUBHOURLY_ALTS
         obs = {}
         unc = {}
-        for name in ALTS:
-            a = alter(rep, name, seed % 1000 + ALTS.index(name) + k)
+        for name in alts:
+            a = alter(rep, name, seed % 1000 + alts.index(name) + k)
             o = observe(lambda: model.predict(fl.caltrack_reporting(a.copy(), electric=(k % 2 == 0))))
             obs[name] = o
             run.count((vlib.sha(case), name))
@@ -1050,8 +1087,8 @@ def caltrack_stream(run, seed, nsets):
                     all((x in blank) == (not obs[x]["ok"]) for x in (a, b)):
                 return "frequency-check-on-nonnull-usage-index"
             return "unexplained"
-        run.dist("caltrack_index", irregular or "regular")
-        pairwise(run, "caltrack", obs, {"stream": "fitted", "path": "class"}, case, classify=classify)
+        run.dist("caltrack_index", (irregular or "regular") + (" %d-minute feed" % case["minutes"] if case.get("minutes") else ""))
+        pairwise(run, "caltrack", obs, {"stream": "fitted", "path": "class"}, case, classify=classify, presence=True)
         if k == 0 and obs["orig"]["ok"]:
             run.sample({"stream": "caltrack", "tz": tz, "start": start, "rows": len(obs["orig"]["ts"]),
                         "predicted": int(np.isfinite(obs["orig"]["pred"]).sum())})
@@ -1113,7 +1150,7 @@ def caltrack_zone_stream(run, model, tz, seed, nsets):
                     return "from-series-index-zone-depends-on-meter-presence"
                 return "unexplained"
             run.dist("caltrack_zones", "meter %s / weather %s" % ("local", "UTC" if wz == "UTC" else ("local" if wz == tz else "third zone")))
-            pairwise(run, "caltrack", obs, {"stream": "fitted", "path": "from_series-zones"}, case, classify=classify)
+            pairwise(run, "caltrack", obs, {"stream": "fitted", "path": "from_series-zones"}, case, classify=classify, presence=True)
     if iz_terms:
         bad = run.coq_cases("iz", IMPORTS, "", iz_terms, "check_iz", shard=400, case_type="(Z * option Z * Z * Z)%type")
         if bad is None:
@@ -1146,7 +1183,7 @@ def main():
         "of every variant compared with Model/HourlyFlow.v in Coq. daily/billing through the data classes (frame constructor and from_series) with hourly temperature rows, frames starting "
         "at 00/06/18 h, daily / hourly / monthly usage at 00 or 07 h, all alterations; oracle extended by: identical temperature "
         "in data.df on every stamp predicted in both runs; the meter-day index of the daily class compared with "
-        "Model/CounterfactualFlows.v meter_index_as_coded (stream mi). caltrack from_series with the temperature feed labelled in UTC / a third zone / the baseline zone and the meter supplied, altered or None. caltrack: one fitted model, sets of 3-45 days. "
+        "Model/CounterfactualFlows.v meter_index_as_coded (stream mi). caltrack from_series with the temperature feed labelled in UTC / a third zone / the baseline zone and the meter supplied, altered or None. sub-hourly feeds (30- / 15-minute rows, extra variant: readings off the full hour blank for a block of days) for CalTRACK and hourly; for the hourly families an instant predicted in one run and NaN in the other is a violation (prediction-lost). caltrack: one fitted model, sets of 3-45 days. "
         "distinct = (case hash, variant); non-trivial = at least one finite temperature")
     run.assumptions += [
         "the usage column is altered before the public data class sees it; the data classes themselves (interpolation of hourly "
